@@ -47,7 +47,7 @@ def check(run):
     patlib.run_wpt(run, binp)
 
     bases = base_components(binp, BASES, idna_via)
-    n = 6000 if run.tier == "quick" else 120000
+    n = 18000 if run.tier == "quick" else 120000
     cases = []
     for _ in range(n):
         r = rng.random()
